@@ -1,3 +1,603 @@
+/-
+Property C17 — remodeling operations are pure functions of their parameters and input table.
+Theorems about `HedVerif.Remodel` (Model/Remodel.lean), for ALL tables, operation lists and processing
+histories.  Helper lemmas first, the property theorems at the end.
+-/
 import HedVerif.Model.Remodel
 namespace HedVerif.C17
+open HedVerif HedVerif.Remodel
+
+/-! ### tables -/
+
+theorem header_mapCells (f : Cell → Cell) (t : Table) : header (mapCells f t) = header t := by
+  simp [header, mapCells, List.map_map, Function.comp_def]
+
+theorem header_prep (t : Table) : header (prep t) = header t := header_mapCells _ t
+
+theorem lookup_none_iff (t : Table) (col : Str) : t.lookup col = none ↔ col ∉ header t := by
+  induction t with
+  | nil => simp [header]
+  | cons p t ih =>
+    obtain ⟨n, c⟩ := p
+    by_cases h : col = n
+    · subst h; simp [header, List.lookup]
+    · have h' : (col == n) = false := by simpa using h
+      simp only [List.lookup, h', header, List.map_cons, List.mem_cons, h, false_or]
+      simpa [header] using ih
+
+theorem lookup_some_of_mem (t : Table) (col : Str) (h : col ∈ header t) : ∃ c, t.lookup col = some c := by
+  cases hl : t.lookup col with
+  | none => exact absurd h ((lookup_none_iff t col).1 hl)
+  | some c => exact ⟨c, rfl⟩
+
+theorem applyMask_nil_right {α} (m : List Bool) : applyMask m ([] : List α) = [] := by
+  cases m with
+  | nil => rfl
+  | cons b m => cases b <;> rfl
+
+/-- masking by a mask computed on the already masked key column = masking once by the conjunction -/
+theorem applyMask_comp {α β} (p : α → Bool) :
+    ∀ (m : List Bool) (c : List α) (d : List β),
+      applyMask ((applyMask m c).map p) (applyMask m d) = applyMask (List.zipWith (· && ·) m (c.map p)) d
+  | [], c, d => by simp [applyMask]
+  | b :: m, [], d => by simp [applyMask_nil_right, applyMask]
+  | b :: m, x :: c, [] => by simp [applyMask_nil_right]
+  | true :: m, x :: c, y :: d => by
+    cases hp : p x <;> simp [applyMask, hp, applyMask_comp p m c d]
+  | false :: m, x :: c, y :: d => by
+    simp [applyMask, applyMask_comp p m c d]
+
+theorem lookup_filterRows (m : List Bool) (t : Table) (col : Str) :
+    (filterRows m t).lookup col = (t.lookup col).map (applyMask m) := by
+  induction t with
+  | nil => rfl
+  | cons p t ih =>
+    obtain ⟨n, c⟩ := p
+    simp only [filterRows, List.map_cons, List.lookup] at ih ⊢
+    split <;> simp_all
+
+/-! ### state -/
+
+theorem reorderImpl_fst (o : List Str) (i k : Bool) (t : Table) : (reorderImpl o i k t).1 = o := by
+  unfold reorderImpl
+  simp only
+  split <;> rfl
+
+theorem opImpl_fst (o : Op) (t : Table) : (opImpl o t).1 = o := by
+  cases o <;> simp [opImpl, reorderImpl_fst]
+
+theorem runWith_fst (step : Op → Table → Op × Except OpErr Table) (hs : ∀ o t, (step o t).1 = o) :
+    ∀ (ops : List Op) (t : Table), (runWith step ops t).1 = ops
+  | [], t => rfl
+  | o :: os, t => by
+    unfold runWith
+    split
+    · rfl
+    · have h1 := hs o (prep t)
+      split
+      · next o' e heq => simp [heq] at h1; simp [h1]
+      · next o' t1 heq =>
+        simp [heq] at h1
+        simp [h1, runWith_fst step hs os (post t1)]
+
+theorem runManyWith_eq (step : Op → Table → Op × Except OpErr Table) (hs : ∀ o t, (step o t).1 = o) :
+    ∀ (ops : List Op) (ts : List Table),
+      runManyWith step ops ts = (ops, ts.map fun t => (runWith step ops t).2)
+  | ops, [] => rfl
+  | ops, t :: ts => by
+    simp [runManyWith, runWith_fst step hs ops t, runManyWith_eq step hs ops ts]
+
+/-! ### remove_rows -/
+
+theorem removeRows_fold (col : Str) (t : Table) (c : Column) (hc : t.lookup col = some c) :
+    ∀ (vs : List Val) (q : Cell → Bool),
+      vs.foldl (removeRowsStep col) (filterRows (c.map q) t)
+        = filterRows (c.map fun x => q x && vs.all fun v => !cellEq x v) t
+  | [], q => by simp
+  | v :: vs, q => by
+    have hl : (filterRows (c.map q) t).lookup col = some (applyMask (c.map q) c) := by
+      simp [lookup_filterRows, hc]
+    have hstep : removeRowsStep col (filterRows (c.map q) t) v
+        = filterRows (c.map fun x => q x && !cellEq x v) t := by
+      simp only [removeRowsStep, hl]
+      simp only [filterRows, List.map_map, Function.comp_def]
+      apply List.map_congr_left
+      intro p _
+      simp only [applyMask_comp, List.zipWith_map_left, List.zipWith_map_right, List.zipWith_self]
+    rw [List.foldl_cons, hstep, removeRows_fold col t c hc vs]
+    congr 1
+    apply List.map_congr_left
+    intro x _
+    simp [Bool.and_assoc]
+
+theorem removeRows_refines (col : Str) (vals : List Val) (t : Table) (hv : vals ≠ []) :
+    removeRowsImpl col vals t = removeRowsSpec col vals t := by
+  unfold removeRowsImpl removeRowsSpec
+  cases hl : t.lookup col with
+  | none =>
+    have := (lookup_none_iff t col).1 hl
+    simp [this]
+  | some c =>
+    have hm : col ∈ header t := by
+      apply Decidable.byContradiction
+      intro h; rw [(lookup_none_iff t col).2 h] at hl; cases hl
+    cases vals with
+    | nil => exact absurd rfl hv
+    | cons v vs =>
+      simp only [hm, if_true, List.foldl_cons]
+      have h1 : removeRowsStep col t v = filterRows (c.map fun x => !cellEq x v) t := by
+        simp [removeRowsStep, hl]
+      rw [h1, removeRows_fold col t c hl vs]
+      simp [List.all_cons]
+
+/-! ### reorder_columns -/
+
+theorem any_eq_not_isEmpty_filter {α} (p : α → Bool) (l : List α) : l.any p = !(l.filter p).isEmpty := by
+  induction l with
+  | nil => rfl
+  | cons x l ih => cases h : p x <;> simp [h, ih]
+
+theorem reorder_refines (o : List Str) (i k : Bool) (t : Table) :
+    reorderImpl o i k t = (o, reorderSpec o i k t) := by
+  unfold reorderImpl reorderSpec
+  simp only [any_eq_not_isEmpty_filter]
+  generalize hM : (o.filter fun e => !(header t).contains e) = missing
+  have hmem : ∀ e, e ∈ missing ↔ (e ∈ o ∧ (header t).contains e = false) := by
+    intro e; rw [← hM, List.mem_filter]; simp
+  cases missing with
+  | nil =>
+    have hall : ∀ e ∈ o, (header t).contains e = true := by
+      intro e he
+      cases hc : (header t).contains e with
+      | true => rfl
+      | false => exact absurd ((hmem e).2 ⟨he, hc⟩) (by simp)
+    have hlisted : (o.filter fun e => (header t).contains e) = o := List.filter_eq_self.2 hall
+    simp only [hlisted, List.isEmpty_nil, Bool.not_true, Bool.false_and, Bool.and_false,
+      Bool.false_eq_true, if_false]
+    cases k <;> simp
+  | cons x xs =>
+    cases i
+    · simp only [List.isEmpty_cons, Bool.not_false, Bool.and_self, if_true]
+    · have hord : (o.filter fun e => !(x :: xs).contains e) = o.filter fun e => (header t).contains e := by
+        apply List.filter_congr
+        intro e he
+        cases hc : (header t).contains e with
+        | true =>
+          have : e ∉ x :: xs := fun hm => by have := ((hmem e).1 hm).2; rw [hc] at this; cases this
+          simp [this]
+        | false =>
+          have : e ∈ x :: xs := (hmem e).2 ⟨he, hc⟩
+          simp [this]
+      simp only [List.isEmpty_cons, Bool.not_false, Bool.not_true, Bool.and_false, Bool.false_and,
+        Bool.false_eq_true, if_false, if_true, hord]
+      cases k
+      · simp
+      · simp only [if_true]
+        have hoth : ((header t).filter fun e => !(o.filter fun e => (header t).contains e).contains e)
+            = (header t).filter fun e => !o.contains e := by
+          apply List.filter_congr
+          intro e he
+          cases hc : o.contains e with
+          | true =>
+            have h1 : e ∈ o := by simpa using hc
+            simp [h1, he]
+          | false =>
+            have h1 : e ∉ o := by simpa using hc
+            simp [h1]
+        rw [hoth]
+
+/-! ### factor_column -/
+
+theorem header_setCol (t : Table) (n : Str) (c : Column) :
+    header (setCol t n c) = if n ∈ header t then header t else header t ++ [n] := by
+  unfold setCol
+  split
+  · simp only [header, List.map_map]
+    apply List.map_congr_left
+    intro p _
+    simp only [Function.comp_def]
+    split <;> rfl
+  · simp [header]
+
+theorem mem_header_setCol (t : Table) (n : Str) (c : Column) (x : Str) (h : x ∈ header t) :
+    x ∈ header (setCol t n c) := by
+  rw [header_setCol]; split <;> simp [h]
+
+theorem lookup_map_replace (t : Table) (n col : Str) (c : Column) (h : n ≠ col) :
+    (t.map (fun p => if p.1 = n then (p.1, c) else p)).lookup col = t.lookup col := by
+  induction t with
+  | nil => rfl
+  | cons p t ih =>
+    obtain ⟨m, d⟩ := p
+    by_cases hm : m = n
+    · subst hm
+      have : (col == m) = false := by simpa using (Ne.symm h)
+      simp only [List.map_cons, if_true, List.lookup, this]
+      exact ih
+    · simp only [List.map_cons, hm, if_false, List.lookup]
+      split
+      · rfl
+      · exact ih
+
+theorem lookup_setCol_ne (t : Table) (n col : Str) (c : Column) (h : n ≠ col) :
+    (setCol t n c).lookup col = t.lookup col := by
+  unfold setCol
+  split
+  · exact lookup_map_replace t n col c h
+  · cases hl : t.lookup col with
+    | none =>
+      have : (col == n) = false := by simpa using (Ne.symm h)
+      simp [List.lookup_append, hl, List.lookup, this]
+    | some d => simp [List.lookup_append, hl]
+
+theorem factorLoop_eq (col : Str) (c0 : Column) :
+    ∀ (fv fn : List Str) (t : Table), t.lookup col = some c0 → col ∉ fn →
+      factorLoop col fv fn t =
+        if fn.length < fv.length then .error (.raised .IndexError)
+        else .ok ((fv.zip fn).foldl (fun t' vn => setCol t' vn.2 (factorCol c0 vn.1)) t)
+  | [], fn, t, _, _ => by simp [factorLoop]
+  | v :: vs, [], t, hl, _ => by simp [factorLoop, hl]
+  | v :: vs, n :: ns, t, hl, hn => by
+    have hne : n ≠ col := by intro h; apply hn; simp [h]
+    have hns : col ∉ ns := by intro h; apply hn; simp [h]
+    have hl' : (setCol t n (factorCol c0 v)).lookup col = some c0 := by
+      rw [lookup_setCol_ne _ _ _ _ hne]; exact hl
+    simp only [factorLoop, hl]
+    rw [factorLoop_eq col c0 vs ns _ hl' hns]
+    simp [List.zip_cons_cons, List.foldl_cons]
+
+theorem derived_name_ne (col v : Str) : col ≠ col ++ '.' :: v := by
+  intro h
+  have := congrArg List.length h
+  simp at this
+
+theorem factor_refines (col : Str) (values names : Option (List Str)) (t : Table)
+    (hn : col ∉ names.getD []) : factorImpl col values names t = factorSpec col values names t := by
+  unfold factorImpl factorSpec
+  cases hl : t.lookup col with
+  | none => rfl
+  | some c0 =>
+    simp only
+    apply factorLoop_eq col c0 _ _ t hl
+    unfold factorNames
+    split
+    · intro hmem
+      rw [List.mem_map] at hmem
+      obtain ⟨v, _, hv⟩ := hmem
+      exact derived_name_ne col v hv.symm
+    · exact hn
+
+/-! ### merge_consecutive -/
+
+/-- what the declarative mask knows about the predecessor of the next row -/
+def absPrev (st : GSt) : Option (Bool × Row) := st.prev.map fun r => (st.inGroup, r)
+
+def keepBit (st : GSt) (mr : Bool × Row) : Bool :=
+  !(mr.1 && (match absPrev st with | some p => p.1 && p.2 = mr.2 | none => false))
+
+theorem groupStep_spec (st : GSt) (mr : Bool × Row) (hinv : st.inGroup = true → 1 ≤ st.count) :
+    (∃ g, (groupStep st mr).out = g :: st.out ∧ (g == 0) = keepBit st mr)
+    ∧ absPrev (groupStep st mr) = some mr
+    ∧ ((groupStep st mr).inGroup = true → 1 ≤ (groupStep st mr).count) := by
+  obtain ⟨m, r⟩ := mr
+  obtain ⟨ig, cnt, prev, out⟩ := st
+  simp only at hinv
+  cases m
+  · refine ⟨⟨0, ?_, ?_⟩, ?_, ?_⟩ <;> simp [groupStep, keepBit, absPrev]
+  · cases ig
+    · refine ⟨⟨0, ?_, ?_⟩, ?_, ?_⟩ <;> simp [groupStep, keepBit, absPrev]
+      cases prev <;> simp
+    · have hc : 1 ≤ cnt := hinv rfl
+      by_cases hp : prev = some r
+      · subst hp
+        refine ⟨⟨cnt, ?_, ?_⟩, ?_, ?_⟩ <;> simp [groupStep, keepBit, absPrev]
+        · omega
+        · exact hc
+      · refine ⟨⟨0, ?_, ?_⟩, ?_, ?_⟩ <;> simp [groupStep, keepBit, absPrev, hp]
+        cases prev with
+        | none => simp
+        | some pr =>
+          have : pr ≠ r := fun h => hp (by rw [h])
+          simp [this]
+
+theorem removeGroups_fold :
+    ∀ (mrs : List (Bool × Row)) (st : GSt), (st.inGroup = true → 1 ≤ st.count) →
+      ((mrs.foldl groupStep st).out.reverse.map (· == 0))
+        = st.out.reverse.map (· == 0) ++ mergeKeep (absPrev st) mrs
+  | [], st, _ => by simp [mergeKeep]
+  | mr :: mrs, st, hinv => by
+    obtain ⟨⟨g, hout, hg⟩, habs, hinv'⟩ := groupStep_spec st mr hinv
+    rw [List.foldl_cons, removeGroups_fold mrs _ hinv', habs, hout]
+    simp only [List.reverse_cons, List.map_append, List.map_cons, List.map_nil, List.append_assoc,
+      List.cons_append, List.nil_append, mergeKeep, hg]
+    rfl
+
+theorem removeGroups_eq_mergeKeep (mrs : List (Bool × Row)) :
+    (removeGroups mrs).map (· == 0) = mergeKeep none mrs := by
+  have := removeGroups_fold mrs {} (by simp)
+  simpa [removeGroups, absPrev] using this
+
+theorem merge_refines (col : Str) (code : Val) (m : Option (List Str)) (i : Bool) (t : Table) :
+    mergeImpl col code m i t = mergeSpec col code m i t := by
+  unfold mergeImpl mergeSpec
+  congr 1
+  funext mrs
+  exact removeGroups_eq_mergeKeep mrs
+
+/-! ### running validated lists -/
+
+theorem selectCols_ok : ∀ (names : List Str) (t : Table), (∀ n ∈ names, n ∈ header t) →
+    ∃ t', selectCols names t = .ok t'
+  | [], t, _ => ⟨[], rfl⟩
+  | n :: ns, t, h => by
+    obtain ⟨c, hc⟩ := lookup_some_of_mem t n (h n (by simp))
+    obtain ⟨r, hr⟩ := selectCols_ok ns t (fun m hm => h m (by simp [hm]))
+    exact ⟨(n, c) :: r, by simp [selectCols, hc, hr]⟩
+
+theorem factorLoop_ok (col : Str) :
+    ∀ (fv fn : List Str) (t : Table), col ∈ header t → fv.length ≤ fn.length →
+      ∃ t', factorLoop col fv fn t = .ok t'
+  | [], fn, t, _, _ => ⟨t, by simp [factorLoop]⟩
+  | v :: vs, [], t, _, hlen => by simp at hlen
+  | v :: vs, n :: ns, t, hm, hlen => by
+    obtain ⟨c, hc⟩ := lookup_some_of_mem t col hm
+    have hlen' : vs.length ≤ ns.length := by simpa using hlen
+    obtain ⟨t', ht'⟩ := factorLoop_ok col vs ns (setCol t n (factorCol c v))
+      (mem_header_setCol t n _ col hm) hlen'
+    exact ⟨t', by simp [factorLoop, hc, ht']⟩
+
+/-- what validation guarantees about a modelled operation (`validate_input_data`) -/
+def inputOk (o : Op) : Prop := inputDataErrs (.modelled o) = []
+
+theorem factor_lengths (col : Str) (values names : Option (List Str)) (c0 : Column)
+    (h : factorInputErrs values names = []) :
+    (factorValues (values.getD []) c0).length
+      ≤ (factorNames col (names.getD []) (factorValues (values.getD []) c0)).length := by
+  unfold factorNames
+  split
+  · simp
+  · next hne =>
+    unfold factorInputErrs at h
+    simp only at h
+    have hne' : (names.getD []).isEmpty = false := by simpa using hne
+    cases hv : (values.getD []).isEmpty with
+    | true => simp [hne', hv] at h
+    | false =>
+      simp only [hne', hv, Bool.not_false, Bool.and_false, Bool.false_eq_true, if_false,
+        Bool.true_and, Bool.and_true] at h
+      have hl : (names.getD []).length = (values.getD []).length := by
+        apply Decidable.byContradiction
+        intro hcon
+        have : ((names.getD []).length != (values.getD []).length) = true := by simpa using hcon
+        simp [this] at h
+      simp [factorValues, hv, hl]
+
+theorem op_runs (o : Op) (t : Table) (hv : inputOk o)
+    (hc : ∀ n ∈ namedCols o, n ∈ header t) : ∃ t', opImpl o t = (o, .ok t') := by
+  cases o with
+  | removeRows c vs =>
+    simp only [opImpl, removeRowsImpl]
+    split <;> exact ⟨_, rfl⟩
+  | removeColumns cs i =>
+    have : (cs.any fun n => !(header t).contains n) = false := by
+      simp only [List.any_eq_false]
+      intro n hn
+      simpa using hc n (by simpa [namedCols] using hn)
+    simp only [opImpl, removeColumnsImpl, this, Bool.and_false, Bool.false_eq_true, if_false]
+    exact ⟨_, rfl⟩
+  | renameColumns m i =>
+    have : (m.any fun kv => !(header t).contains kv.1) = false := by
+      simp only [List.any_eq_false]
+      intro kv hkv
+      have : kv.1 ∈ header t := hc kv.1 (by simp only [namedCols, List.mem_map]; exact ⟨kv, hkv, rfl⟩)
+      simpa using this
+    simp only [opImpl, renameColumnsImpl, this, Bool.and_false, Bool.false_eq_true, if_false]
+    exact ⟨_, rfl⟩
+  | reorderColumns o i k =>
+    have hmiss : (o.filter fun e => !(header t).contains e) = [] := by
+      rw [List.filter_eq_nil_iff]
+      intro e he
+      simpa using hc e (by simpa [namedCols] using he)
+    have hsel : ∃ t', selectCols (if k = true then o ++ (header t).filter (fun e => !o.contains e) else o) t
+        = .ok t' := by
+      apply selectCols_ok
+      intro n hn
+      cases k
+      · exact hc n (by simpa [namedCols] using hn)
+      · simp only [if_true, List.mem_append, List.mem_filter] at hn
+        rcases hn with hn | hn
+        · exact hc n (by simpa [namedCols] using hn)
+        · exact hn.1
+    obtain ⟨t', ht'⟩ := hsel
+    refine ⟨t', ?_⟩
+    simp only [opImpl, reorderImpl, hmiss, List.isEmpty_nil, Bool.not_true, Bool.false_and,
+      Bool.false_eq_true, if_false, ht']
+  | factorColumn c vs ns =>
+    have hm : c ∈ header t := hc c (by simp [namedCols])
+    obtain ⟨c0, hc0⟩ := lookup_some_of_mem t c hm
+    have hlen := factor_lengths c vs ns c0 (by simpa [inputOk, inputDataErrs] using hv)
+    obtain ⟨t', ht'⟩ := factorLoop_ok c _ _ t hm hlen
+    exact ⟨t', by simp only [opImpl, factorImpl, hc0, ht']⟩
+  | mergeConsecutive c code m i =>
+    have hm : c ∈ header t := hc c (by simp [namedCols])
+    obtain ⟨c0, hc0⟩ := lookup_some_of_mem t c hm
+    have hcon : (header t).contains c = true := by simpa using hm
+    have hmiss : ((m.getD []).filter fun e => !(header t).contains e) = [] := by
+      rw [List.filter_eq_nil_iff]
+      intro e he
+      simpa using hc e (by simp [namedCols, he])
+    simp only [opImpl, mergeImpl, mergeCore, hcon, hmiss, hc0, Bool.not_true, Bool.and_false,
+      Bool.false_eq_true, if_false, List.isEmpty_nil]
+    split <;> exact ⟨_, rfl⟩
+
+theorem runs_ok : ∀ (ops : List Op) (t : Table), (∀ o ∈ ops, inputOk o) → hasColumns ops t = true →
+    ∃ t', runSt ops t = (ops, .ok t')
+  | [], t, _, _ => ⟨t, rfl⟩
+  | o :: os, t, hv, hh => by
+    simp only [hasColumns, Bool.and_eq_true, decide_eq_true_eq, List.all_eq_true] at hh
+    obtain ⟨⟨hnd, hnamed⟩, hrest⟩ := hh
+    have hnamed' : ∀ n ∈ namedCols o, n ∈ header (prep t) := by
+      intro n hn; rw [header_prep]; simpa using hnamed n hn
+    obtain ⟨t1, ht1⟩ := op_runs o (prep t) (hv o (by simp)) hnamed'
+    rw [ht1] at hrest
+    obtain ⟨t', ht'⟩ := runs_ok os (post t1) (fun o' ho' => hv o' (by simp [ho'])) hrest
+    refine ⟨t', ?_⟩
+    unfold runSt at ht' ⊢
+    unfold runWith
+    simp only [hnd, not_true_eq_false, if_false, ht1, ht']
+
+theorem errsFrom_nil {α} (f : α → List ErrKind) :
+    ∀ (i : Nat) (xs : List α), errsFrom f i xs = [] → ∀ x ∈ xs, f x = []
+  | _, [], _, x, hx => by cases hx
+  | i, y :: ys, h, x, hx => by
+    simp only [errsFrom, List.append_eq_nil_iff, List.map_eq_nil_iff] at h
+    rcases List.mem_cons.1 hx with rfl | hx'
+    · exact h.1
+    · exact errsFrom_nil f (i + 1) ys h.2 x hx'
+
+theorem toOps_eq : ∀ (pops : List POp) (ops : List Op), toOps pops = some ops → pops = ops.map POp.modelled
+  | [], ops, h => by simp [toOps] at h; subst h; rfl
+  | .modelled o :: ps, ops, h => by
+    simp only [toOps, Option.map_eq_some_iff] at h
+    obtain ⟨os, hos, rfl⟩ := h
+    simp [toOps_eq ps os hos]
+  | .other _ _ :: _, ops, h => by simp [toOps] at h
+
+/-! ## The property -/
+
+/-- **No operation changes its parameters**, whatever the table, whatever the list, also when an exception
+escapes: the operations a dispatcher holds after `run_operations` are the ones it was built with. -/
+theorem state_constant (ops : List Op) (t : Table) : (runSt ops t).1 = ops :=
+  runWith_fst opImpl opImpl_fst ops t
+
+/-- conditions under which the code's way of computing an operation is its documented meaning:
+`remove_values` is not empty (PARAMS: minItems 1); explicit factor names do not reuse the factored column -/
+def WfOp : Op → Prop
+  | .removeRows _ vs => vs ≠ []
+  | .factorColumn c _ ns => c ∉ ns.getD []
+  | _ => True
+
+/-- **Every modelled `do_op` computes the documented table** (and leaves its parameters alone):
+remove_rows keeps exactly the rows differing from every listed value; remove/rename are the pandas calls;
+reorder is "listed-and-present, then the others iff keep_others"; factor columns are computed from the original
+column; merge drops a row iff it and its predecessor carry the code and agree on the match columns. -/
+theorem impl_refines_spec (o : Op) (t : Table) (h : WfOp o) : opImpl o t = (o, opSpec o t) := by
+  cases o with
+  | removeRows c vs => simp [opImpl, opSpec, removeRows_refines c vs t h]
+  | removeColumns cs i => rfl
+  | renameColumns m i => rfl
+  | reorderColumns o i k => simp [opImpl, opSpec, reorder_refines]
+  | factorColumn c vs ns => simp [opImpl, opSpec, factor_refines c vs ns t h]
+  | mergeConsecutive c code m i => simp [opImpl, opSpec, merge_refines]
+
+/-- **Processing order is irrelevant**: pushing any sequence of tables through one dispatcher leaves the
+operations as they were and gives, for each table, the result a fresh dispatcher would give. -/
+theorem order_independent (ops : List Op) (ts : List Table) :
+    runMany ops ts = (ops, ts.map fun t => (runSt ops t).2) :=
+  runManyWith_eq opImpl opImpl_fst ops ts
+
+/-- first, last, in the middle or again: the result for `t` is the same at every position of every history -/
+theorem order_independent_position (ops : List Op) (before after : List Table) (t : Table) :
+    (runMany ops (before ++ t :: after)).2[before.length]? = some (runSt ops t).2 := by
+  rw [order_independent]
+  simp
+
+/-- **A validated list runs to completion** on every table that has, at each step, the columns the step names
+(with unique labels): no exception, and the parameters are unchanged. -/
+theorem validated_runs (raws : List JVal) (ops : List Op) (t : Table)
+    (hvalid : validateParams raws = []) (hparse : parseOps raws = some ops)
+    (hcols : hasColumns ops t = true) : ∃ t', run ops t = .ok (t', ops) := by
+  have hin : ∀ o ∈ ops, inputOk o := by
+    unfold validateParams at hvalid
+    simp only at hvalid
+    unfold parseOps at hparse
+    split at hvalid
+    · next he => rw [hvalid] at he; simp at he
+    · cases hm : raws.mapM parseOp with
+      | none => rw [hm] at hvalid; simp at hvalid
+      | some pops =>
+        rw [hm] at hvalid hparse
+        simp only [Option.bind_some] at hparse hvalid
+        have hp := toOps_eq pops ops hparse
+        intro o ho
+        exact errsFrom_nil inputDataErrs 0 pops hvalid (.modelled o) (by rw [hp]; exact List.mem_map_of_mem ho)
+  obtain ⟨t', ht'⟩ := runs_ok ops t hin hcols
+  exact ⟨t', by simp [run, ht']⟩
+
+/-- **An invalid list is reported and nothing is executed**: the entry point answers with the messages, for any
+tables (no result, no operation object exists). -/
+theorem invalid_not_run (raws : List JVal) (ts : List Table) (h : validateParams raws ≠ []) :
+    remodel raws ts = .rejected (validateParams raws) := by
+  unfold remodel
+  have : (validateParams raws).isEmpty = false := by
+    cases hv : validateParams raws with
+    | nil => exact absurd hv h
+    | cons _ _ => rfl
+  simp [this]
+
+/-- **n/a cells stay n/a**: the dispatcher's conversion round trip is the identity on tables as they are read
+(no NaN cell), so an empty list returns the table and every untouched cell of a step's result is unchanged. -/
+theorem na_round_trip (t : Table) (h : ∀ p ∈ t, ∀ c ∈ p.2, c ≠ Cell.nan) : post (prep t) = t := by
+  unfold post prep mapCells
+  rw [List.map_map]
+  have : ∀ p ∈ t, ((fun p : Str × Column => (p.1, p.2.map postCell)) ∘
+      (fun p : Str × Column => (p.1, p.2.map prepCell))) p = p := by
+    intro p hp
+    obtain ⟨n, c⟩ := p
+    simp only [Function.comp, List.map_map, Prod.mk.injEq, true_and]
+    have : ∀ x ∈ c, (postCell ∘ prepCell) x = x := by
+      intro x hx
+      cases x with
+      | str s => by_cases hs : s = naStr <;> simp [prepCell, postCell, hs]
+      | int n => rfl
+      | flt r => rfl
+      | nan => exact absurd rfl (h (n, c) hp .nan hx)
+    calc c.map (postCell ∘ prepCell) = c.map id := List.map_congr_left this
+      _ = c := List.map_id c
+  calc t.map _ = t.map id := List.map_congr_left this
+    _ = t := List.map_id t
+
+/-! ### the unrepaired reorder_columns (DESIGN.md section 8 #12) — regression counter-examples -/
+
+instance {ε α} [DecidableEq ε] [DecidableEq α] : DecidableEq (Except ε α)
+  | .ok a, .ok b => if h : a = b then isTrue (by rw [h]) else isFalse (by intro h'; cases h'; exact h rfl)
+  | .error a, .error b => if h : a = b then isTrue (by rw [h]) else isFalse (by intro h'; cases h'; exact h rfl)
+  | .ok _, .error _ => isFalse (by intro h; cases h)
+  | .error _, .ok _ => isFalse (by intro h; cases h)
+
+def tabABC : Table := [(['a'], [.int 1]), (['b'], [.str ['x']]), (['c'], [.int 3])]
+def tabAB : Table := [(['a'], [.int 1]), (['b'], [.str ['x']])]
+def opBA : Op := .reorderColumns [['b'], ['a']] false true
+
+/-- with `ordered = self.column_order; ordered += …` the parameters change … -/
+theorem reorder_old_state_counterexample :
+    (runWith opImplOld [opBA] tabABC).1 = [.reorderColumns [['b'], ['a'], ['c']] false true] := by decide
+
+/-- … and the same table gives a different result after another table has been processed: `a,b` is reordered
+when it comes first, and raises ValueError (column `c` "missing") when it comes after `a,b,c` -/
+theorem reorder_old_order_counterexample :
+    (runManyWith opImplOld [opBA] [tabAB, tabABC]).2[0]? = some (.ok [(['b'], [.str ['x']]), (['a'], [.int 1])])
+    ∧ (runManyWith opImplOld [opBA] [tabABC, tabAB]).2[1]? = some (.error (.raised .ValueError)) := by decide
+
+/-! ### non-vacuity -/
+
+def rawFactor : JVal := .obj [("operation".toList, .str "factor_column".toList), ("description".toList, .str []),
+  ("parameters".toList, .obj [("column_name".toList, .str ['a'])])]
+def rawReorder : JVal := .obj [("operation".toList, .str "reorder_columns".toList), ("description".toList, .str []),
+  ("parameters".toList, .obj [("column_order".toList, .arr [.str ['b'], .str ['a']]),
+    ("ignore_missing".toList, .bool false), ("keep_others".toList, .bool true)])]
+def rawBad : JVal := .obj [("operation".toList, .str "factor_column".toList), ("description".toList, .str []),
+  ("parameters".toList, .obj [("column_name".toList, .str ['a']), ("factor_names".toList, .arr [.str ['f']])])]
+
+-- a list without optional parameters validates, parses, has its columns, and (by the theorem) runs
+example : validateParams [rawFactor, rawReorder] = [] := by decide
+example : parseOps [rawFactor, rawReorder] = some [.factorColumn ['a'] none none, opBA] := by decide
+example : hasColumns [.factorColumn ['a'] none none, opBA] tabABC = true := by decide
+example : validateParams [rawBad] ≠ [] := by decide
+example : validateParams [] ≠ [] := by decide
+example : WfOp opBA ∧ WfOp (.factorColumn ['a'] none none) ∧ WfOp (.removeRows ['a'] [.int 1]) := by
+  simp [WfOp, opBA]
+-- the repaired code on the counter-example inputs
+example : (runMany [opBA] [tabABC, tabAB]).2[1]? = some (.ok [(['b'], [.str ['x']]), (['a'], [.int 1])]) := by decide
+
 end HedVerif.C17
